@@ -143,6 +143,17 @@ func c06Duplication(c *Ctx, f *Family, r *rand.Rand, modular bool) {
 	if before.countDisabled() > 0 || before.countRecurrent() > 0 || len(before.Modules) > 0 {
 		c.Distinct(before.fingerprint())
 	}
+	// a sibling copy taken from the same source before anything is mutated: it must stay untouched as well
+	sibling, serr := src.VerifDuplicate(f.newId())
+	var siblingBefore *SnapGenome
+	if serr == nil && sibling != nil {
+		siblingBefore = snapGenome(sibling)
+		if sh := genomePointers(dup).sharedWith(genomePointers(sibling)); sh != "" {
+			c.Violate("shared-state", detail(), "two copies of one genome share mutable state with each other: %s", sh)
+			return
+		}
+		c.Count("duplications.sibling_pairs", 1)
+	}
 	// independence: mutate one side, the other side must stay as it was
 	mutated, other := dup, src
 	side := "copy"
@@ -178,6 +189,15 @@ func c06Duplication(c *Ctx, f *Family, r *rand.Rand, modular bool) {
 			dd["mutators"] = applied
 			c.Violate("not-independent", dd, "mutating the %s by %s changed the other genome: %s", side, op, d)
 			return
+		}
+		if siblingBefore != nil {
+			if d := diffGenomes(siblingBefore, snapGenome(sibling)); d != "" {
+				dd := detail()
+				dd["mutated_side"] = side
+				dd["mutators"] = applied
+				c.Violate("not-independent", dd, "mutating the %s by %s changed a sibling copy of the same source: %s", side, op, d)
+				return
+			}
 		}
 	}
 	if c.WantSample() && len(before.Genes) > 3 {
